@@ -5,7 +5,12 @@ V = os.path.dirname(os.path.dirname(os.path.abspath(__file__)))
 ALL = ["C%02d" % i for i in range(1, 21)]
 
 CODEC_NOTE = "Trusted: the reflection bridge (identity-checked on every case), the schema universe and alphabets, the reference codecs, the Go toolchain. Schemas enter as the generator's intermediate JSON (the Java parser is absent). Small-scope bounds: depth <= 2 (3 on spines), <= 5 entries, strings <= 2 chars over the metacharacter set + tokens."
+WIRE_NOTE = "Trusted: mc/wire (net/http serialisation + server-side parsing, no sockets), the reflection bridge and call/reply machinery, the resource universe. Resources enter as the generator's intermediate JSON. Association resources are not in the grammar (the generator does not support them)."
 CHECKS = {
+ "C02": dict(engine="enumx", category="model_checking", design="§3 C02",
+   technique="bounded-exhaustive enumeration of (resource, method, argument position, value, client/server configuration) through generated client -> in-memory HTTP wire -> real router -> generated mock resource and back; oracle = recorded mock arguments and client results equal the abstract call and scripted reply",
+   text="Every method (11 rest methods, return-entity variants, 2 finders with params/paging/metadata, 5 actions) of every resource of the R-universe (collections keyed by string, int64, complex key [+ int32, bool, bytes, float64, enum, typerefs in thorough], simple, action set, sub-resources to 3 levels with 2 parent keys, collection under simple) is called with one argument deviating at a time over the value alphabets (full 1760-string alphabet on get keys, finder/action string parameters and created ids) under the default configuration and reduced alphabets under 9 configuration deviations (tunnelling thresholds 1 / 10^6, lenient, three resolver bases, ServeMux and prefix mounting). Exactly the matching resource method must run with equal keys, parameters, paging and body, and the client must return the scripted entity / elements+paging+metadata / action result / created id+status / batch results.",
+   note=WIRE_NOTE),
  "C14": dict(engine="enumx", category="model_checking", design="§3 C14",
    technique="exhaustive enumeration of verb x query x body x threshold through the real tunnelling encoder / client request builders, net/http serialisation + server-side parsing and the real decoder, compared field by field with the untunnelled request; enumerated malformed tunnelled requests against a server with stub resource code",
    text="4 verbs x 24 queries (escaped metacharacters, CR/LF, boundary-looking text, 300-byte) x 7 bodies (absent, JSON with boundary-like lines, 64 KB) at function level; client builders with thresholds {0,1,len-1,len,len+1,10^6}: tunnelled iff len(query) > threshold > 0, otherwise byte-identical to the plain request; 14 malformed tunnelled requests must yield 400 without touching resource code. Both generations.",
